@@ -306,3 +306,101 @@ def tls_branch_dead(ctx, f, bb):
                 if f.dominates(bs[1], bb, unwind=False) and bs[1] != bs[2]:
                     return True
     return False
+
+
+def slot_typestate(facts, fld):
+    """Typestate of an Option slot of Request (`response_writer` / `data_reader`).
+    -> dict(emptiers={fn ids that move the value out / overwrite it}, users={fn ids that only
+    borrow it}, bad=[(fn, bb, why)]): `bad` lists emptiers that are not reached exclusively through
+    methods that consume the Request (or Drop)."""
+    emptiers, users, bad = set(), set(), []
+    for f, bb, kind, x in facts.field_writes(REQ, fld):
+        if kind == "construct":
+            continue
+        if kind == "mutref":
+            emptying = False
+            seen = {x["lhs"]["l"]}
+            work = [x["lhs"]["l"]]
+            while work:
+                l = work.pop()
+                for u in f.uses().get(l, []):
+                    if u[0] == "term" and u[2]["t"] == "call":
+                        if call_is(u[2], "std::mem::swap", "std::mem::replace", "std::mem::take", "std::option::Option::<T>::take",
+                                   "std::option::Option::<T>::replace", "std::option::Option::<T>::insert", "std::option::Option::<T>::get_or_insert"):
+                            emptying = True
+                    elif u[0] == "stmt" and not u[3]["lhs"]["p"] and u[3]["lhs"]["l"] not in seen:
+                        seen.add(u[3]["lhs"]["l"]); work.append(u[3]["lhs"]["l"])
+            (emptiers if emptying else users).add(f.id)
+        elif kind in ("assign", "calldest"):
+            emptiers.add(f.id)
+        elif kind == "drop":
+            # `self.slot = v` drops the old value first; counted with the assignment
+            pass
+    for f, bb, kind in facts.field_reads(REQ, fld):
+        if kind == "move":
+            emptiers.add(f.id)
+        elif f.id not in emptiers:
+            users.add(f.id)
+
+    def consumes(g):
+        return (g.argc >= 1 and g.local_ty(1) == REQ) or g.rec.get("impl_trait") == T_DROP
+
+    for e in sorted(emptiers):
+        ef = facts.fns[e]
+        if ef.rec.get("impl_self_adt") != REQ:
+            bad.append((ef, 0, "the slot is emptied outside of Request's own methods"))
+            continue
+        if consumes(ef):
+            continue
+        seen = set()
+        work = [e]
+        while work:
+            x = work.pop()
+            if x in seen:
+                continue
+            seen.add(x)
+            callers = facts.callers_of(x)
+            if not callers and not consumes(facts.fns[x]) and facts.fns[x].rec.get("vis_pub"):
+                bad.append((facts.fns[x], 0, "public non-consuming method empties the slot"))
+            for g, bb, t in callers:
+                if consumes(g):
+                    continue
+                if g.rec.get("impl_self_adt") == REQ and not g.rec.get("vis_pub"):
+                    work.append(g.id)
+                else:
+                    bad.append((g, bb, "caller of a slot-emptying helper does not consume the Request"))
+    return {"emptiers": emptiers, "users": users - emptiers, "bad": bad}
+
+
+# ------------------------------------------------------------------------------------------------
+# decision tables: evaluate a branch structure for every assignment of named boolean atoms
+
+def walk_decision(f, start, atom_of, assignment, stop, on_block=None, max_steps=400):
+    """Follow the normal CFG from `start` deciding each recognised test with `assignment`.
+    atom_of(bb) -> (atom name, {value: target}) for decision blocks, None otherwise.
+    Returns (reached stop block or None, list of visited blocks).  A block with several normal
+    successors that is not a recognised decision aborts with CheckerError."""
+    bb = start
+    visited = []
+    for _ in range(max_steps):
+        visited.append(bb)
+        if on_block:
+            on_block(bb)
+        if bb in stop:
+            return bb, visited
+        a = atom_of(bb)
+        if a is not None:
+            name, edges = a
+            v = assignment[name]
+            if v not in edges:
+                raise CheckerError("decision %s has no edge for %r in %s" % (name, v, f.id))
+            bb = edges[v]
+            continue
+        succ = f.succs(bb, False)
+        if len(succ) == 1:
+            bb = succ[0]
+            continue
+        if not succ:
+            return None, visited
+        raise CheckerError("unrecognised branch at %s while extracting a decision table in %s" % (f.loc(bb), f.id))
+    raise CheckerError("decision walk did not terminate in %s" % f.id)
